@@ -1,3 +1,4 @@
 import DocsModel.Model.Bytes
 import DocsModel.Model.Entry
 import DocsModel.Model.Spec
+import DocsModel.Model.Tables
